@@ -5,6 +5,8 @@ package main
 // uses a field, not from identifiers of locals.
 
 import (
+	"strings"
+	"fmt"
 	"go/token"
 	"go/types"
 
@@ -199,4 +201,102 @@ func loadOfFieldOn(v ssa.Value, f FieldRef, baseAP string) bool {
 		return false
 	}
 	return AccessPath(base).String() == baseAP
+}
+
+// storedAsGiven: every constructor of fr's type stores into fr exactly what it was given - one of its parameters (or a
+// field of a configuration parameter), modulo conversions. A constant may replace it only on a path that established
+// that the given value is negative. Returns the deviations.
+func storedAsGiven(p *Prog, fr FieldRef) []string { return storedAsGivenD(p, fr, 0) }
+
+func storedAsGivenD(p *Prog, fr FieldRef, depth int) []string {
+	var bad []string
+	n := 0
+	for _, ctor := range p.Funcs {
+		if p.PkgOf(ctor) == "" || strings.HasPrefix(p.PkgOf(ctor), "examples") {
+			continue
+		}
+		for _, al := range p.allocsOf(ctor, fr.Type) {
+			var stores []*ssa.Store
+			allInstrs(ctor, func(ins ssa.Instruction) {
+				if st, ok := ins.(*ssa.Store); ok {
+					if fa, ok := st.Addr.(*ssa.FieldAddr); ok && fa.X == ssa.Value(al) && fa.Field == fr.Index {
+						stores = append(stores, st)
+					}
+				}
+			})
+			for _, st := range stores {
+				n++
+				EnumPathsPrefix(ctor, st, 100000, func(pa *Path) bool {
+					step := pa.StepOf(st)
+					v := strip(pa.ResolveDeep(st.Val, step), true)
+					for i := 0; i < 4; i++ {
+						if cv, ok := v.(*ssa.Convert); ok {
+							v = strip(pa.ResolveDeep(cv.X, step), true)
+						}
+					}
+					// the same instant in another location is the same bound
+					for i := 0; i < 3; i++ {
+						if call, ok := v.(*ssa.Call); ok {
+							if c := p.CallOf(call); c.Is("(time.Time).UTC", "(time.Time).Local", "(time.Time).In") && c.Recv != nil {
+								v = strip(pa.ResolveDeep(c.Recv, step), true)
+							}
+						}
+					}
+					switch x := v.(type) {
+					case *ssa.Parameter:
+						return true
+					case *ssa.UnOp:
+						// a field of a configuration value handed in, or of the object this one is derived from (a listener
+						// copying its limiter's setting): that field in turn holds what its constructor was given
+						if f2, _, ok := loadedField(x); ok {
+							if depth < 2 && f2.Type != nil && p.InPkgType(f2.Type) && p.FieldImmutable(f2) && len(p.allocSitesOf(f2.Type)) > 0 {
+								bad = append(bad, storedAsGivenD(p, f2, depth+1)...)
+							}
+							return len(bad) < 2
+						}
+						if al2, ok := x.X.(*ssa.Alloc); ok {
+							if _, isP := singleStore(al2).(*ssa.Parameter); isP {
+								return true
+							}
+						}
+					case *ssa.Const:
+						neg := pa.HoldsRel(step+1, func(r Rel) bool {
+							if _, isP := strip(r.X, true).(*ssa.Parameter); !isP {
+								return false
+							}
+							k, isC := constInt(strip(r.Y, true))
+							return isC && ((r.Op == token.LSS && k <= 0) || (r.Op == token.LEQ && k < 0))
+						})
+						if neg {
+							return true
+						}
+						bad = append(bad, fmt.Sprintf("%s: %s stores the constant %s into %s on a path that has not established that the configured value is negative: a valid configured value is replaced (%s)", p.At(st), p.Key(ctor), valueString(x), fr.Name, joinWitness(p.DescribePath(pa))))
+						return len(bad) < 2
+					}
+					bad = append(bad, fmt.Sprintf("%s: %s stores %s into %s, not the value it was given", p.At(st), p.Key(ctor), valueString(v), fr.Name))
+					return len(bad) < 2
+				})
+			}
+		}
+	}
+	if n == 0 {
+		bad = append(bad, "no constructor stores "+fr.Name)
+	}
+	return bad
+}
+
+// InPkgType: the named type is declared in the module.
+func (p *Prog) InPkgType(nt *types.Named) bool {
+	return nt != nil && nt.Obj().Pkg() != nil && strings.HasPrefix(nt.Obj().Pkg().Path(), p.Mod)
+}
+
+// allocSitesOf: the module functions that allocate a value of the type.
+func (p *Prog) allocSitesOf(nt *types.Named) []*ssa.Function {
+	var out []*ssa.Function
+	for _, f := range p.Funcs {
+		if len(p.allocsOf(f, nt)) > 0 {
+			out = append(out, f)
+		}
+	}
+	return out
 }
